@@ -815,7 +815,6 @@ func (f *Func) pruneFlagEdgesN(g *cfgx.Graph, depth int) {
 	}
 }
 
-
 // ExploreFeasible is Graph.Explore restricted to paths that are feasible for
 // some valuation of the function's flags (see pruneFlagEdges): the walker's own
 // state is carried alongside the valuation. A start visit placed after an edge
@@ -915,7 +914,6 @@ func (f *Func) ExploreFeasibleWith(start []*cfgx.Visit, w cfgx.Walker, inspect f
 	return out
 }
 
-
 // NilAt reports what the per-path flag analysis knows about the nilable local
 // obj when control arrives at node n: mayBeNil is true when some feasible path
 // from the entry arrives with obj possibly nil (witness is such a path);
@@ -965,7 +963,6 @@ func (f *Func) NilAt(n *cfgx.Node, obj types.Object) (mayBeNil bool, witness *cf
 	return false, nil, true
 }
 
-
 func (f *Func) exploreInsensitive(start []*cfgx.Visit, w cfgx.Walker, inspect func(v *cfgx.Visit, val func(types.Object) uint64)) []*cfgx.Visit {
 	vs := f.Graph().Explore(start, w)
 	if inspect != nil {
@@ -975,7 +972,6 @@ func (f *Func) exploreInsensitive(start []*cfgx.Visit, w cfgx.Walker, inspect fu
 	}
 	return vs
 }
-
 
 // joinOperandNonNil: e is syntactically a non-nil error: a package-level
 // sentinel, fmt.Errorf / errors.New, or a call of a function that returns a
